@@ -84,4 +84,12 @@ CHECKS = {
         "level_note": "strategy catalogue is finite (26 strategies); BLS and PS (message length 1); n <= 4; loud mode",
         "budget_s": {"quick": 170, "thorough": 900},
     },
+    "C14": {
+        "pkg": "checks/c14", "level": "model_checking", "engine": "E3 thread-level",
+        "overlay": "shim:msg/msgbox.go", "overlay_fallback": False,
+        "technique": "stateless model checking of thread interleavings: cooperative scheduler at lock/atomic granularity (sync shim injected by overlay), preemption-bounded DFS, oracle at the end of every interleaving",
+        "level_text": "every interleaving of concurrent Box.HandleMessage / Box.Send calls on the real msg.Box within the preemption bound (2-thread scenarios: all interleavings); exactly-once and per-sender order are checked after each",
+        "level_note": "scheduling points: every Lock/RLock/Once.Do/atomic operation of msg/msgbox.go; code between points is assumed thread-local or protected (data races are C20's business); 9 scenarios of 2-3 threads",
+        "budget_s": {"quick": 170, "thorough": 900},
+    },
 }
